@@ -15,9 +15,10 @@ import (
 )
 
 type seedMeta struct {
-	ID        string `json:"id"`
-	Property  string `json:"property"`
-	Confirmed bool   `json:"confirmed"`
+	ID             string `json:"id"`
+	Property       string `json:"property"`
+	Confirmed      bool   `json:"confirmed"`
+	ExpectedMissed bool   `json:"expected_missed"` // outside the reach of the contracts (documented); reported, not required
 }
 
 type selftestResult struct {
@@ -43,7 +44,7 @@ func runSeeds(props map[string]bool) ([]selftestResult, bool) {
 	for _, mf := range dirs {
 		var m seedMeta
 		data, err := os.ReadFile(mf)
-		if err != nil || json.Unmarshal(data, &m) != nil || !m.Confirmed {
+		if err != nil || json.Unmarshal(data, &m) != nil || !m.Confirmed || m.ExpectedMissed {
 			continue
 		}
 		jobs = append(jobs, job{m, filepath.Join(filepath.Dir(mf), "patch.diff")})
